@@ -8,7 +8,7 @@ import ast
 
 from .. import astutil as A
 from ..fa import FA, log_call
-from .effects import reach_effects, storage_backend_classes, QUERY_METHODS, MUTATOR_METHODS, Assume
+from .effects import reach_effects, storage_backend_classes, QUERY_METHODS, MUTATOR_METHODS, Assume, effective_function
 from .c05 import check_queries_effect_free
 
 
@@ -24,13 +24,16 @@ def persistent_effect_nodes(ck, fa: FA):
     mutation, or a call that reaches one.  -> [(stmt-or-expr node, description)]"""
     cg = ck.cg
     out = []
-    q = fa.qual
-    for n in cg.fs_write_sites.get(q, []):
+    # (a method whose statements were gathered from a helper it delegates to: the sites recorded for either)
+    quals = list(getattr(fa.fi, "parts", [fa.qual]))
+    for n in [n for q in quals for n in cg.fs_write_sites.get(q, [])]:
         out.append((n, "filesystem write %s" % A.short(n, 50)))
-    for (owner, fld, n) in cg.field_mut_sites.get(q, []):
+    for (owner, fld, n) in [x for q in quals for x in cg.field_mut_sites.get(q, [])]:
         if _persist_owner(ck, owner) and fld.split(":")[0] not in ("read_only", "config", "storage_type"):
             out.append((n, "mutation of %s.%s" % (owner.split(".")[-1], fld)))
-    for (call, cands, how) in cg.edges.get(q, []):
+    for (call, cands, how) in [x for q in quals for x in cg.edges.get(q, [])]:
+        if len(quals) > 1 and not fa.nodes(call):
+            continue        # the delegating call itself: its statements are here in its place
         for c in cands:
             if c.cls is not None and c.cls.qual == "storage_base.MemoryCache":
                 continue
@@ -42,6 +45,31 @@ def persistent_effect_nodes(ck, fa: FA):
             if pm:
                 out.append((call, "call reaching a mutation of %s.%s via %s" % (pm[0][0].split(".")[-1], pm[0][1], pm[0][4])))
                 break
+    # an operation dispatched by name -- getattr(layer, 'forget_call')(..), operator.methodcaller('forget_call', ..)(layer), a
+    # bound method taken first -- is a call of every method of that name on a class that owns persistent state
+    from .c05 import _operation_sites
+    from .cache_model import safe_expand
+    known = {id(call) for q in quals for (call, cands, how) in cg.edges.get(q, []) if cands}
+    lits = set(A.strings_in(fa.node))
+    for nm in sorted(lits):
+        if not nm.isidentifier():
+            continue
+        targets = [m for c_ in ck.repo.modules.values() for k in c_.all_classes() for (mn, m) in k.methods.items()
+                   if mn == nm and _persist_owner(ck, k.qual) and m.node is not None and not ck.repo.is_abstract(m)]
+        if not targets:
+            continue
+        for (call, recv, args, kws) in _operation_sites(fa, nm):
+            if id(call) in known or A.norm(safe_expand(fa, recv, call)).endswith("._memory_cache"):
+                continue        # (the memory cache is not persistent state)
+            for m in targets:
+                fs, muts, prev = reach_effects(ck, m)
+                pm = [x for x in muts if _persist_owner(ck, x[0])]
+                if fs:
+                    out.append((call, "call (dispatched by name) reaching a filesystem write (%s via %s)" % (A.short(fs[0][1], 40), fs[0][2])))
+                    break
+                if pm:
+                    out.append((call, "call (dispatched by name) reaching a mutation of %s.%s via %s" % (pm[0][0].split(".")[-1], pm[0][1], pm[0][4])))
+                    break
     return out
 
 
@@ -81,7 +109,9 @@ def check_guard(ck):
             if m is None or repo.is_abstract(m) or m.qual in seen or name in ("create", "register", "to_dict"):
                 continue
             seen.add(m.qual)
-            fa = FA(ck, m)
+            # the statements that run when the method is called: wrappers of new decorators applied, a body that only
+            # delegates to a new helper replaced by the helper's
+            fa = FA(ck, effective_function(ck, m))
             effs = persistent_effect_nodes(ck, fa)
             if name in QUERY_METHODS:
                 continue  # decided by R2 (must have no effect at all)
